@@ -3,7 +3,7 @@ CONSTANTS
   Letters = {97, 98, 99}
   MaxRules = 2
   MaxLen = 3
-  Ops = {0, 1, 2, 3, 7, 11, 128}
+  Ops = {0, 1, 2, 3, 7, 128}
   StopAtHit = TRUE
   CheckFlags = TRUE
   Bug = ""
